@@ -152,7 +152,11 @@ def run_one(poly, d, turns):
             # a hatching polyline is the clipped hatch lines plus the joins between them: the lines themselves must be
             # inside the block; a polyline that is outside although all its lines are inside is outside in a join
             lines_out = sum(float(ln.difference(grown).length) for ls in hatch_lines for ln in ls)
-            where = sorted({'contour' if yields[i][0] else ('hatching-lines' if lines_out > 1e-9 else 'hatching-joins')
+            # a hatching that is not the hatching of one remaining polygon of the work list (its joins run between separate
+            # parts of the floor) is not the recorded finding 'hatching-joins' (joins across a concavity of one polygon)
+            across = any(pid >= 10 ** 6 for pid, _ in hatch_rec)
+            where = sorted({'contour' if yields[i][0] else ('hatching-lines' if lines_out > 1e-9 else
+                                                            ('hatching-across-parts' if across else 'hatching-joins'))
                             for i, o in enumerate(outs) if o > 1e-9})
             cover = unary_union([ln.buffer(1.06 * d + 2e-5) for ln in lines])
             rest = t.block.difference(cover)
